@@ -23,7 +23,9 @@ impl FaceIntegral for VoronoiFaceIntegral {
         Self {
             area: 0.,
             centroid: DVec3::ZERO,
-            normal: cell.clipping_planes[clipping_plane_idx].plane.n,
+            // The clipping planes' normals point inwards (towards the left generator), the
+            // normal of a face points away from its left generator.
+            normal: -cell.clipping_planes[clipping_plane_idx].plane.n,
         }
     }
 
